@@ -1,5 +1,106 @@
 ------------------------------- MODULE FxpOps -------------------------------
-(* Property-level operations on stored values: arithmetic, growth rules,     *)
-(* conversions, division relations, bitwise, shifts, comparisons, reductions. *)
+(***************************************************************************)
+(* Property-level operations on stored values: exact arithmetic and the    *)
+(* documented growth rules (C07), imposed result formats (C08), division   *)
+(* relations (C09), the minimal format of a set of values (C06), bitwise   *)
+(* patterns (C13), shifts (C14), comparisons and numeric conversions       *)
+(* (C16), scale/bias (C17), reductions (C15).                              *)
+(***************************************************************************)
 EXTENDS FxpMath
+
+(************************ growth rules as documented ************************)
+GrowAdd(x, y) == LET s == x.s \/ y.s
+                     ni == MaxI(NInt(x), NInt(y)) + 1
+                     f == MaxI(x.f, y.f)
+                 IN [s |-> s, w |-> ni + f + BitOf(s), f |-> f]
+GrowMul(x, y) == [s |-> x.s \/ y.s, w |-> x.w + y.w, f |-> x.f + y.f]
+GrowTrueDiv(x, y) == LET s == x.s \/ y.s
+                         ni == NInt(x) + y.f + BitOf(s)
+                         f == x.f + NInt(y)
+                     IN [s |-> s, w |-> BitOf(s) + ni + f, f |-> f]
+GrowFloorDiv(x, y) == LET s == x.s \/ y.s
+                          ni == NInt(x) + y.f + BitOf(s)
+                      IN [s |-> s, w |-> BitOf(s) + ni, f |-> 0]
+GrowMod(x, y) == LET s == x.s \/ y.s
+                     ni == IF s THEN MaxI(NInt(x), NInt(y)) ELSE MinI(NInt(x), NInt(y))
+                     f == MaxI(x.f, y.f)
+                 IN [s |-> s, w |-> BitOf(s) + ni + f, f |-> f]
+Grow(op, x, y) == CASE op \in {"add", "sub"} -> GrowAdd(x, y)
+                    [] op = "mul" -> GrowMul(x, y)
+                    [] op = "truediv" -> GrowTrueDiv(x, y)
+                    [] op = "floordiv" -> GrowFloorDiv(x, y)
+                    [] op = "mod" -> GrowMod(x, y)
+
+\* result format imposed by a sizing policy (functions._get_sizing): the signedness is the OR of
+\* the operands', integer and fraction lengths come from the policy
+ByInts(s, ni, f) == [s |-> s, w |-> BitOf(s) + ni + f, f |-> f]
+ImposedFmt(policy, op, x, y) ==
+   LET s == x.s \/ y.s IN
+   CASE policy = "optimal"  -> Grow(op, x, y)
+     [] policy = "same"     -> ByInts(s, NInt(x), x.f)
+     [] policy = "largest"  -> ByInts(s, MaxI(NInt(x), NInt(y)), MaxI(x.f, y.f))
+     [] policy = "smallest" -> ByInts(s, MinI(NInt(x), NInt(y)), MinI(x.f, y.f))
+
+(****************************** exact results *******************************)
+ExactOp(op, cx, tx, cy, ty) ==
+   LET vx == ValueOf(cx, tx)  vy == ValueOf(cy, ty) IN
+   CASE op = "add" -> DAdd(vx, vy) [] op = "sub" -> DSub(vx, vy) [] op = "mul" -> DMul(vx, vy)
+\* the result of op into format tz under modes (r, o): exact result quantized once (C08)
+ArithInto(op, cx, tx, cy, ty, tz, r, o) == Quantize(ExactOp(op, cx, tx, cy, ty), tz, r, o)
+
+(**************************** division (C09) ********************************)
+(* Everything is stated by cross-multiplication on integers; no rationals.  *)
+(* x = cx*2^-fx, y = cy*2^-fy (cy # 0), z = cz*2^-fz.                       *)
+(*   x / y  compared with  z :   cx * 2^(fy - fx + fz)   vs   cz * cy        *)
+SgnMul(a, neg) == IF neg THEN ZNeg(a) ELSE a
+\* numerator N and positive denominator Dn with x/y * 2^fz = N / Dn, as integers scaled by 2^k (k >= 0)
+DivNum(cx, tx, cy, ty, fz) ==
+   LET e == ty.f - tx.f + fz                \* x/y*2^fz = cx*2^e / cy
+       n0 == IF e >= 0 THEN ZShl(cx, e) ELSE cx
+   IN SgnMul(n0, ZIsNeg(cy))
+DivDen(cx, tx, cy, ty, fz) ==
+   LET e == ty.f - tx.f + fz
+       d0 == IF e >= 0 THEN ZAbs(cy) ELSE ZShl(ZAbs(cy), -e)
+   IN d0
+\* cz = floor(N/Dn)   <=>   cz*Dn <= N < (cz+1)*Dn
+IsFloorOf(cz, n, dn) == ZLe(ZMul(cz, dn), n) /\ ZLt(n, ZMul(ZAdd(cz, Z1), dn))
+IsCeilOf(cz, n, dn)  == ZLt(ZMul(ZSub(cz, Z1), dn), n) /\ ZLe(n, ZMul(cz, dn))
+IsExactQuot(cz, n, dn) == ZMul(cz, dn) = n
+\* C09 true division: exact when representable, else one of the two neighbours
+TrueDivOK(cx, tx, cy, ty, cz, tz) ==
+   LET n == DivNum(cx, tx, cy, ty, tz.f)  dn == DivDen(cx, tx, cy, ty, tz.f)
+   IN IsFloorOf(cz, n, dn) \/ IsCeilOf(cz, n, dn)
+\* x // y = floor(x/y) as a VALUE (an integer q); stored in format tz it is q*2^fz
+FloorQuotIs(q, cx, tx, cy, ty) ==
+   IsFloorOf(q, DivNum(cx, tx, cy, ty, 0), DivDen(cx, tx, cy, ty, 0))
+\* x % y = x - y*floor(x/y):   value(cz, tz) + y*q = x
+ModIs(cz, tz, q, cx, tx, cy, ty) ==
+   DEq(DAdd(ValueOf(cz, tz), DMul(ValueOf(cy, ty), DOfInt(q))), ValueOf(cx, tx))
+
+(************************ minimal format of values (C06) ********************)
+\* vs: non-empty sequence of dyadics
+SeqMaxI(f(_), n) == LET RECURSIVE mx(_)  mx(i) == IF i = 1 THEN f(1) ELSE MaxI(f(i), mx(i - 1)) IN mx(n)
+MinFrac(vs) == SeqMaxI(LAMBDA i : MinFracOf(vs[i]), Len(vs))
+CodeAt(d, f) == FloorD(Scale(d, f))                    \* exact when f >= MinFracOf(d)
+MinWord(vs, signed, f) ==
+   MaxI(SeqMaxI(LAMBDA i : MinWordOf(CodeAt(vs[i], f), signed), Len(vs)), f + BitOf(signed))
+MinimalFmt(vs, signed) == LET f == MinFrac(vs) IN [s |-> signed, w |-> MinWord(vs, signed, f), f |-> f]
+
+(****************************** bitwise (C13) *******************************)
+\* the n-bit two's-complement pattern of a code, MSB first, as a sequence of 0/1
+Pattern(c, w) == LET u == ZMod2(c, w) IN [i \in 1..w |-> ZBit(u, w - i)]
+\* the unsigned integer a pattern denotes
+PatToNat(p) == LET RECURSIVE h(_)  h(i) == IF i = 0 THEN Z0 ELSE ZAdd(ZShl(h(i - 1), 1), ZI(p[i])) IN h(Len(p))
+\* reinterpret an n-bit unsigned image in format t
+FromImage(u, t) == IF t.s /\ ZLe(ZPow2(t.w - 1), u) THEN ZSub(u, ZPow2(t.w)) ELSE u
+PatNot(p) == [i \in DOMAIN p |-> 1 - p[i]]
+PatAnd(p, q) == [i \in DOMAIN p |-> IF p[i] = 1 /\ q[i] = 1 THEN 1 ELSE 0]
+PatOr(p, q)  == [i \in DOMAIN p |-> IF p[i] = 1 \/ q[i] = 1 THEN 1 ELSE 0]
+PatXor(p, q) == [i \in DOMAIN p |-> IF p[i] # q[i] THEN 1 ELSE 0]
+BitwiseOp(op, p, q) == CASE op = "and" -> PatAnd(p, q) [] op = "or" -> PatOr(p, q) [] op = "xor" -> PatXor(p, q)
+
+(************************ comparisons, conversions (C16) ********************)
+Rel(op, a, b) == CASE op = "lt" -> DLt(a, b) [] op = "le" -> DLe(a, b) [] op = "eq" -> DEq(a, b)
+                   [] op = "ne" -> ~DEq(a, b) [] op = "gt" -> DLt(b, a) [] op = "ge" -> DLe(b, a)
+URaw(c, t) == ZMod2(c, t.w)
 =============================================================================
